@@ -221,3 +221,33 @@ func VerifReadBits(data []byte, nbits []int) (vals []uint32, eos []bool) {
 	}
 	return
 }
+
+// VerifRefsWithLocalCache runs BackwardRefsWithLocalCache on the given
+// references (pixel distances) and returns the rewritten list.
+func VerifRefsWithLocalCache(argb []uint32, cacheBits int, refs []VerifRef) []VerifRef {
+	br := NewBackwardRefs(len(refs))
+	for _, r := range refs {
+		switch r.Kind {
+		case 0:
+			br.Add(LiteralPixel(r.Argb))
+		case 1:
+			br.Add(CachePixel(r.Idx))
+		default:
+			br.Add(CopyPixel(r.Len, r.Dist))
+		}
+	}
+	BackwardRefsWithLocalCache(argb, cacheBits, br, nil)
+	out := make([]VerifRef, 0, len(br.refs))
+	for i := range br.refs {
+		v := &br.refs[i]
+		switch {
+		case v.IsLiteral():
+			out = append(out, VerifRef{Kind: 0, Argb: v.Argb()})
+		case v.IsCacheIdx():
+			out = append(out, VerifRef{Kind: 1, Idx: v.CacheIndex()})
+		default:
+			out = append(out, VerifRef{Kind: 2, Len: v.Length(), Dist: v.Distance()})
+		}
+	}
+	return out
+}
